@@ -32,6 +32,9 @@ type GenParams struct {
 	FinalReopen            bool // end with a caught-up reopen
 	Idle                   bool // use idle merger cycles
 	NoPersistSteps         bool
+	FirstWide              int      // the first batch gets this many extra generated keys (big-then-small histories)
+	QuietPct               int      // percentage of programs whose monitors run only at explicit check points
+	SkewedWide             bool     // wide keys with skewed lengths (long keys sorting first), for key-index windows
 	Keys                   []string // explicit key pool (overrides DenseKeys/NKeys)
 	HostileVals            bool     // values with hostile lengths / contents
 }
@@ -201,6 +204,11 @@ func (g *genState) ops(cur *model.Coll, max int, mustUnique bool) []model.Op {
 	}
 	for w := 0; w < g.gp.WideKeys; w++ {
 		k := []byte(fmt.Sprintf("w%05d", g.r.Intn(g.gp.WideKeys*4)))
+		if g.gp.SkewedWide && g.r.Chance(1, 8) {
+			// long keys that sort before the short ones
+			k = append([]byte("aa"), bytes.Repeat([]byte{byte('a' + g.r.Intn(26))}, 40+g.r.Intn(160))...)
+			k = append(k, []byte(fmt.Sprint(g.r.Intn(g.gp.WideKeys*4)))...)
+		}
 		dup := false
 		for _, o := range ops {
 			if string(o.Key) == string(k) {
@@ -230,7 +238,14 @@ func (g *genState) batch() *model.Batch {
 	delOnly := g.gp.Children && !childOnly && r.Intn(100) < g.gp.DelOnlyPct && len(g.tree.Ch) > 0
 	if delOnly {
 		names := g.tree.ChildNames()
-		b.DelChildren = []string{names[r.Intn(len(names))]}
+		name := names[r.Intn(len(names))]
+		if sub := g.tree.Ch[name].ChildNames(); g.gp.Nested && len(sub) > 0 && r.Chance(1, 2) {
+			// delete only a grandchild: the batch mentions the child with a
+			// child batch that holds nothing but the nested deletion
+			b.Children = []model.ChildBatch{{Name: name, B: &model.Batch{DelChildren: []string{sub[r.Intn(len(sub))]}}}}
+		} else {
+			b.DelChildren = []string{name}
+		}
 		g.tree.Apply(b, MergeFold)
 		return b
 	}
@@ -348,12 +363,16 @@ func (b *BatchGen) Next() *model.Batch { return b.g.batch() }
 func GenProgram(r *Rng, prop string, cfg Config, gp GenParams) *Program {
 	g := newGenState(r, gp)
 	p := &Program{Prop: prop, Seed: r.S, Cfg: cfg}
+	if gp.QuietPct > 0 && r.Intn(100) < gp.QuietPct {
+		p.Quiet = true
+	}
 	nb := gp.MinBatches + r.Intn(gp.MaxBatches-gp.MinBatches+1)
 	store := cfg.Backing == "store"
 	lower := cfg.Backing != "none"
 	nextH := 1
 	open := []int{}    // snapshot handles
 	openAll := []int{} // all handles
+	iters := []int{}   // iterator handles
 	add := func(s Step) { p.Steps = append(p.Steps, s) }
 	mergeKind := func() string {
 		x := r.Intn(10)
@@ -456,8 +475,12 @@ func GenProgram(r *Rng, prop string, cfg Config, gp GenParams) *Program {
 					en = []byte(g.keys[r.Intn(len(g.keys))])
 				}
 				add(Step{K: "iter", H: h, Par: par, Start: st, End: en, N: r.Intn(4)})
+				iters = append(iters, h)
 			}
 			openAll = append(openAll, h)
+		}
+		if len(iters) > 0 && r.Chance(1, 3) {
+			add(Step{K: "iterseek", H: iters[r.Intn(len(iters))], Start: []byte(g.keys[r.Intn(len(g.keys))])})
 		}
 		if len(openAll) > 0 && r.Chance(1, 8) {
 			i := r.Intn(len(openAll))
@@ -473,7 +496,13 @@ func GenProgram(r *Rng, prop string, cfg Config, gp GenParams) *Program {
 		}
 	}
 	for i := 0; i < nb; i++ {
-		add(Step{K: "batch", B: g.batch()})
+		if i == 0 && gp.FirstWide > 0 {
+			g.gp.WideKeys = gp.FirstWide
+			add(Step{K: "batch", B: g.batch()})
+			g.gp.WideKeys = gp.WideKeys
+		} else {
+			add(Step{K: "batch", B: g.batch()})
+		}
 		handleSteps()
 		bgSteps()
 		if store && gp.Reopen && r.Chance(1, 7) {
@@ -502,11 +531,30 @@ func GenProgram(r *Rng, prop string, cfg Config, gp GenParams) *Program {
 			add(Step{K: "merge", A: "mergeAll"})
 			add(Step{K: "persist"})
 		}
-		add(Step{K: "drain"})
-		add(Step{K: "closecoll"})
+		if store && r.Chance(1, 3) {
+			// close while a persistence round is parked in mid-flight
+			add(Step{K: "batch", B: g.batch()})
+			add(Step{K: "merge", A: "plain"})
+			add(Step{K: "persist", P: persisterParks[r.Intn(len(persisterParks))]})
+			add(Step{K: "closecoll", A: "mid"})
+		} else {
+			add(Step{K: "drain"})
+			add(Step{K: "closecoll"})
+		}
 		add(Step{K: "check"})
+		for _, h := range iters {
+			if r.Chance(1, 2) {
+				add(Step{K: "iterseek", H: h, Start: []byte(g.keys[r.Intn(len(g.keys))])})
+			}
+		}
 		add(Step{K: "closestore"})
 		add(Step{K: "check"})
+		for _, h := range iters {
+			if r.Chance(1, 2) {
+				add(Step{K: "iterseek", H: h, Start: []byte(g.keys[r.Intn(len(g.keys))])})
+				add(Step{K: "check"})
+			}
+		}
 	}
 	return p
 }
